@@ -346,7 +346,7 @@ def run_world(world, monitors):
 
 
 VALUE_KEYS = {'cycle', 'delay', 'value', 't', 'amount', 'capacity', 'dur', 'cost', 'needcap', 'interval', 'horizon',
-              'addvalue'}
+              'addvalue', 'finish_offset'}
 VALUE_CONTAINERS = {'pools', 'res', 'batches', 'horizons', 'durs', 'needs', 'costs'}
 
 
@@ -716,6 +716,10 @@ class CycleMon(Monitor):
                 if k == 'proc':
                     d.add_shutdown_callback(self._down)
                     d.add_restored_callback(self._up)
+                    fo = next(x for x in w.spec['devices'] if x['name'] == n).get('finish_offset')
+                    if fo is not None:
+                        # a finish-processing callback that sets a one-shot offset for the *next* part
+                        d.add_finish_processing_callback(lambda dev, part, fo=fo: self._finish_offset(dev, fo))
 
     def _received(self, dev, part):
         w, ctx = self.w, self.ctx
@@ -737,6 +741,14 @@ class CycleMon(Monitor):
             n = op['dev']
             self.pending_offset[n] = self.pending_offset.get(n, 0) + self.w.zval(op['amount'])
             self.ctx.goal('offset_applied')
+
+    def _finish_offset(self, dev, fo):
+        if self.w.probe_depth:
+            return
+        amount = self.w.val(fo)
+        dev.offset_next_cycle_time(amount)
+        self.pending_offset[dev.name] = self.pending_offset.get(dev.name, 0) + self.ctx.z(amount)
+        self.ctx.goal('offset_set_from_finish_callback')
 
     def _spec_cycle(self, n):
         for d in self.w.spec['devices']:
@@ -1441,7 +1453,7 @@ class RoutingMon(Monitor):
                 now = w.now()
                 for o in self.parallel:
                     od = w.dev[o]
-                    if o != n and od._part is None and od._output is None and od.is_operational():
+                    if o != n and od._part is None and od._output is None and od.is_operational() and not od.block_input:
                         ctx.require(self.idle_since[n] <= self.idle_since[o],
                                     'part went to a parallel device although another one had been idle longer', f'{n} instead of {o}')
                         ctx.goal_if('idle_longest_decided', self.idle_since[n] < self.idle_since[o])
